@@ -92,7 +92,13 @@ def random_type(rng, traits, opts=None):
         bounds = [RT + "Payload"]
         if has_a:
             bounds.append(ltname)
-        td.params.append({"kind": "ty", "name": gname, "bounds": bounds, "arg": RT + garg})
+        if rng.random() < 0.35:
+            # the bound the definition relies on lives in the where-clause instead of inline
+            td.params.append({"kind": "ty", "name": gname, "bounds": [b for b in bounds if b != RT + "Payload"],
+                              "arg": RT + garg})
+            td.where.append("%s: %sPayload" % (gname, RT))
+        else:
+            td.params.append({"kind": "ty", "name": gname, "bounds": bounds, "arg": RT + garg})
     if flavour == "rich":
         td.params.insert(1, {"kind": "lt", "name": "'b", "bounds": [ltname], "arg": "'static"})
         td.params.append({"kind": "ty", "name": "K", "bounds": [RT + "Payload"], "arg": RT + garg})
@@ -192,6 +198,7 @@ def random_type(rng, traits, opts=None):
             append_field(rng.choice(nonunit), kinds["PhG"])
         else:
             td.params = [p for p in td.params if p["kind"] != "ty"]
+            td.where = []
             has_g = False
     if has_a and not any("a" in f.kind.needs for _, f in td.all_fields()):
         if nonunit and (o.kinds is None or "RefT" in o.kinds) and "Default" not in derives:
@@ -217,7 +224,7 @@ def random_type(rng, traits, opts=None):
                  "%sT: ::core::clone::Clone" % RT]
         if not any(p["name"] == "'b" for p in td.params):
             wpool = [w for w in wpool if "'b" not in w]
-        td.where = rng.sample(wpool, rng.randint(0, 3))
+        td.where = td.where + [w for w in rng.sample(wpool, rng.randint(0, 3)) if w not in td.where]
     elif flavour == "rich":
         td.params = [p for p in td.params if p["name"] not in ("'b", "K")]
     if flavour in ("GN", "rich"):
@@ -454,7 +461,7 @@ def decorate(rng, td, o):
                         mode = "marker"
                 e = {"ty": tgt, "mode": mode}
                 if mode == "method":
-                    e["method"] = RT + {"u8": "into_u8_alt", "u16": "into_u16_alt", RT + "T": "into_t_alt"}.get(tgt, "into_w_alt")
+                    e["method"] = RT + "into_alt"
                 if mode in ("marker", "method"):
                     f.sem.setdefault("Into", []).append({k: e[k] for k in ("ty", "method") if k in e})
                 f.sem.setdefault("_into", {})[tgt] = e
